@@ -6,8 +6,6 @@ package zz_verif
 // removed from the output) - the real compiled expressions against the documented spellings.
 
 import (
-	"strings"
-
 	"github.com/reedom/convergen/pkg/parser"
 	"github.com/reedom/convergen/pkg/vrt"
 )
@@ -27,8 +25,6 @@ func letterStart(name string, max int) string {
 	t := vrt.Bytes(name, max)
 	vrt.Assume(t != "")
 	vrt.Assume(t[0] >= 'a' && t[0] <= 'z' || t[0] >= 'A' && t[0] <= 'Z')
-	// "// go:generate ..." (a directive spelled with a blank) is not counted as an ordinary comment
-	vrt.Assume(!strings.HasPrefix(t, "go:"))
 	return t
 }
 
@@ -47,7 +43,7 @@ func C11Directives() {
 		return
 	}
 	build, notation, marker := parser.VerifRegexps()
-	switch vrt.Choose("case", 9) {
+	switch vrt.Choose("case", 11) {
 	case 0:
 		s := "//go:build convergen" + tailAfterWord("tail", 4)
 		vrt.Assert("go:build-convergen-recognised", build.MatchString(s))
@@ -87,6 +83,16 @@ func C11Directives() {
 	case 7:
 		s := "// :convergen" + tailAfterWord("tail", 4)
 		vrt.Assert("marker-recognised", marker.MatchString(s) && notation.MatchString(s))
+	case 8:
+		// the constraint is an expression that mentions the tag
+		pre := []string{"(", "!ignore && ", "linux && (", " ", "ignore || "}[vrt.Choose("expr", 5)]
+		s := "//go:build " + pre + "convergen" + tailAfterWord("tail", 4)
+		vrt.Assert("go:build-expression-with-the-tag-recognised", build.MatchString(s))
+	case 9:
+		// a comment that merely STARTS like a directive after a blank ("// go:generate is how ...") is
+		// an ordinary comment to Go, and so it is here
+		s := "// go:generate" + tailAfterWord("tail", 6)
+		vrt.Assert("blank-separated-go:generate-is-no-directive", !build.MatchString(s))
 	default:
 		t := vrt.Bytes("suffix", 3)
 		vrt.Assume(t != "")
